@@ -27,19 +27,105 @@ ENV_PARAMS: Dict[str, dict] = {
     "smtwtp": dict(num_job=5),
     "atsp": dict(num_loc=5),
     "ffsp": dict(num_stage=2, num_machine=2, num_job=4),
-    "fjsp": dict(num_jobs=3, num_machines=3, min_ops_per_job=1, max_ops_per_job=2),
+    "fjsp": dict(num_jobs=3, num_machines=3, min_ops_per_job=1, max_ops_per_job=3),
     "jssp": dict(num_jobs=3, num_machines=3),
 }
+
+
+# Per-instance parameters must DIFFER between the rows of a batch (a policy / env that reads such a parameter from
+# row 0, or from the env object instead of the row, is invisible otherwise).  Each entry lists generator settings
+# whose batches have identical tensor shapes; a pool is the concatenation of a few rows of each, shuffled.
+ENV_VARIANTS: Dict[str, List[dict]] = {
+    "op": [dict(max_length=1.2), dict(max_length=2.0), dict(max_length=3.5)],
+    "cvrp": [dict(capacity=10), dict(capacity=20), dict(capacity=40)],
+    "sdvrp": [dict(capacity=10), dict(capacity=20), dict(capacity=40)],
+    "cvrptw": [dict(capacity=10, max_time=480), dict(capacity=20, max_time=600), dict(capacity=40, max_time=700)],  # max_time >= default: smaller horizons leave customers unreachable
+    "pctsp": [dict(penalty_factor=3.0), dict(penalty_factor=1.0), dict(penalty_factor=6.0)],
+    "spctsp": [dict(penalty_factor=3.0), dict(penalty_factor=1.0), dict(penalty_factor=6.0)],
+    "svrp": [dict(tech_costs=[1, 2, 3]), dict(tech_costs=[2, 3, 5]), dict(tech_costs=[1, 1, 4], min_skill=2.0, max_skill=6.0)],
+    "mdcpdp": [dict(min_capacity=1, max_capacity=1, min_lateness_weight=0.2, max_lateness_weight=0.2),
+               dict(min_capacity=3, max_capacity=3, min_lateness_weight=1.0, max_lateness_weight=1.0),
+               dict(min_capacity=2, max_capacity=5, min_lateness_weight=0.5, max_lateness_weight=0.9)],
+    "mtvrp": [dict(variant_preset="all", capacity=30, speed=1.0, distance_limit=3.0, max_time=4.6),
+              dict(variant_preset="all", capacity=15, speed=2.0, distance_limit=2.0, max_time=3.0),
+              dict(variant_preset="cvrp"), dict(variant_preset="ovrptw"), dict(variant_preset="vrpbl")],
+    "mtsp": [dict(min_num_agents=1, max_num_agents=1), dict(min_num_agents=2, max_num_agents=2),
+             dict(min_num_agents=3, max_num_agents=3)],
+}
+
+
+def _tweak_vehicle_capacity(env, td):
+    """`vehicle_capacity` is written by `_reset` from the env's generator (one value for the whole batch) but read per
+    row by mask / step / context: give every row its own (>= 1, so every customer still fits)."""
+    vals = torch.tensor([1.0, 1.25, 1.5, 2.0, 1.75])
+    B = td.batch_size[0]
+    td.set("vehicle_capacity", vals[torch.arange(B) % len(vals)].reshape(B, 1).to(td["vehicle_capacity"].dtype))
+    return td
+
+
+def _tweak_prize_required(env, td):
+    vals = torch.tensor([1.0, 0.6, 0.3, 0.8])
+    B = td.batch_size[0]
+    td.set("prize_required", vals[torch.arange(B) % len(vals)].reshape(td["prize_required"].shape).to(td["prize_required"].dtype))
+    return td
+
+
+POOL_TWEAKS = {"cvrp": _tweak_vehicle_capacity, "sdvrp": _tweak_vehicle_capacity, "cvrptw": _tweak_vehicle_capacity,
+               "pctsp": _tweak_prize_required, "spctsp": _tweak_prize_required}
+
+# keys whose per-row values are reported in the input distribution when they differ inside a pool
+PARAM_KEYS = ["max_length", "vehicle_capacity", "capacity", "capacity_original", "prize_required", "cur_total_penalty",
+              "num_agents", "lateness_weight", "speed", "distance_limit", "open_route", "techs", "end_op_per_job",
+              "time_windows", "backhaul_class"]
+
+
+def make_pool(name: str, env, rng, rows: int = 9, env_factory=None):
+    """reset TensorDict of `rows` instances whose per-instance parameters differ, + the variant group of every row"""
+    from rl4co.envs import get_env
+
+    variants = ENV_VARIANTS.get(name)
+    if not variants or env_factory is not None:
+        td = env.generator(batch_size=[rows])
+        groups = [0] * rows
+    else:
+        per = -(-rows // len(variants))
+        tds, groups = [], []
+        for g, v in enumerate(variants):
+            e = get_env(name, generator_params={**ENV_PARAMS[name], **v})
+            tds.append(e.generator(batch_size=[per]))
+            groups += [g] * per
+        td = torch.cat(tds, 0)
+        order = list(range(len(groups)))
+        rng.shuffle(order)
+        order = order[:rows]
+        td, groups = td[order], [groups[k] for k in order]
+    td = env.reset(td)
+    tw = POOL_TWEAKS.get(name)
+    if tw is not None:
+        td = tw(env, td)
+        try:
+            td.set("action_mask", env.get_action_mask(td))
+        except Exception:
+            pass
+        groups = list(range(rows))  # every row has its own value now
+    differing = []
+    for k in PARAM_KEYS:
+        if k in td.keys():
+            flat = td[k].reshape(rows, -1).float()
+            if not bool((flat == flat[0]).all()):
+                differing.append(k)
+    return td, groups, differing
 
 
 def make_env(name: str):
     from rl4co.envs import get_env
 
-    kw = {}
-    if name in ("ffsp",):
-        kw["generator_params"] = ENV_PARAMS[name]
-    else:
-        kw["generator_params"] = ENV_PARAMS[name]
+    kw = {"generator_params": ENV_PARAMS[name]}
+    if name in ("cvrp", "sdvrp", "cvrptw"):
+        # rows get their own `vehicle_capacity` (see POOL_TWEAKS); the envs' solution checkers compare `used_cap [B]`
+        # with `vehicle_capacity [B,1]` (a B x B broadcast that is only right while all rows share one capacity), so
+        # the built-in checker is switched off for these hand-edited batches
+        kw["check_solution"] = False
     return get_env(name, **kw)
 
 
